@@ -265,6 +265,7 @@ func cmdCheck(args []string) int {
 	verbose := fs.Bool("v", false, "verbose")
 	noEvidence := fs.Bool("no-evidence", false, "do not write evidence")
 	workers := fs.Int("workers", 16, "worker slots")
+	strict := fs.Bool("strict", false, "exit 1 on any inconclusive item (self-test)")
 	fs.Parse(args)
 	if t := os.Getenv("VERIF_TIER"); t != "" && !flagSet(fs, "tier") {
 		*tier = t
@@ -384,11 +385,13 @@ func cmdCheck(args []string) int {
 
 	rep := newReplayer(*prop, *tier, hfs)
 	defer rep.cleanup()
+	strictMode = *strict || *prop == "SELF"
 	code := report(*prop, *tier, seed, jobs, rep, P, time.Since(t0), !*noEvidence, *verbose, map[string]float64{"load_s": tLoad.Seconds(), "init_s": tInit.Seconds(), "explore_s": tRun.Seconds()})
 	return code
 }
 
 var slots chan struct{}
+var strictMode bool
 
 func flagSet(fs *flag.FlagSet, name string) bool {
 	found := false
